@@ -9,6 +9,8 @@ package openapi3
 // interleaving of such calls is race-free and each call's result is a
 // function of its own inputs.
 
+import "regexp"
+
 //verif:harness id=C15 tier=quick,thorough witness=end bounds="VisitJSON on shared schemas: string with pattern (first use compiles and caches it), array with uniqueItems, object with defaults and oneOf branches (request mode with DefaultsSet), object/array-valued defaults with nested defaults, number with format; values symbolic as in C01/C13; footprint monitor on every path"
 func verifH_C15_visit() {
 	var s *Schema
@@ -62,4 +64,57 @@ func verifH_C15_visit() {
 	_ = s.VisitJSON(v, opts...) // a second call on the same shared schema (cached pattern path)
 	verifSharedEnd()
 	verifReach("end")
+}
+
+// verifFoldMatcher is a per-call regular-expression engine with other semantics
+// than the default one: it matches case-insensitively.
+type verifFoldMatcher struct{ lower RegexMatcher }
+
+func (m verifFoldMatcher) MatchString(s string) bool {
+	b := []byte(s)
+	for i := range b {
+		if b[i] >= 'A' && b[i] <= 'Z' {
+			b[i] += 'a' - 'A'
+		}
+	}
+	return m.lower.MatchString(string(b))
+}
+
+//verif:harness id=C15 tier=quick,thorough witness=end bounds="the verdict of a call is the one it has when run alone: two schemas with the same pattern text (as in two documents), three calls in an order chosen by the explorer, each either with the default regular-expression engine or with a per-call RegexCompiler of other semantics (case-insensitive); values from {ab, AB, zz}: every call's verdict is what its own engine says, whatever ran before it"
+func verifH_C15_verdict_alone() {
+	s1 := &Schema{Type: &Types{"string"}, Pattern: "^[a-c]+$"}
+	s2 := &Schema{Type: &Types{"string"}, Pattern: "^[a-c]+$"}
+	fold := func(expr string) (RegexMatcher, error) {
+		var m RegexMatcher
+		var err error
+		m, err = verifCompileDefault(expr)
+		if err != nil {
+			return nil, err
+		}
+		return verifFoldMatcher{m}, nil
+	}
+	values := []string{"ab", "AB", "zz"}
+	wantDefault := []bool{true, false, false}
+	wantFold := []bool{true, true, false}
+	verifSharedBegin(s1, s2)
+	for call := 0; call < 3; call++ {
+		s := s1
+		if verifChoose("schema", 2) == 1 {
+			s = s2
+		}
+		vi := verifChoose("value", 3)
+		if verifChoose("engine", 2) == 0 {
+			err := s.VisitJSON(values[vi])
+			verifAssert((err == nil) == wantDefault[vi], "C15 verdict alone: a call with the default engine gets the default engine's verdict whatever ran before")
+		} else {
+			err := s.VisitJSON(values[vi], SetSchemaRegexCompiler(fold))
+			verifAssert((err == nil) == wantFold[vi], "C15 verdict alone: a call with its own regular-expression compiler gets that engine's verdict whatever ran before")
+		}
+	}
+	verifSharedEnd()
+	verifReach("end")
+}
+
+func verifCompileDefault(expr string) (RegexMatcher, error) {
+	return regexp.Compile(intoGoRegexp(expr))
 }
